@@ -47,7 +47,7 @@ class C13(Prop):
                  'answers of earlier models snapshotted and re-queried; caller inputs compared with deep copies; warm-start optimum compared '
                  'with the cold-start optimum through losses recomputed from model answers')
     explanation = ('Bounded tier only in this module (labelled bounded, never counted as proved): (history) sequences of 2..4 estimate calls on one '
-                   'estimator with warm_start=False, varying measurement lists, totals (known/estimated), solvers, options dicts and callbacks, '
+                   'estimator (warm_start=False; a quarter with warm_start=True, where only the immutability and input clauses apply after the first call), varying measurement lists, totals (known/estimated), solvers, options dicts and callbacks, '
                    'structural zeros on/off: the k-th model answers every attribute-subset query and datavector() identically to the model of a '
                    'fresh estimator given deep copies of the same arguments (bit-exact for MD; rtol 1e-9 / atol 1e-12*total for RDA/IG because '
                    'eigsh starts from a random vector); every earlier model answers bit-identically after every later call; the measurement list '
@@ -118,7 +118,7 @@ class C13(Prop):
                 s1, s2 = step(dom, sorted(st), st, eng), step(dom, sorted(st), st)
                 yield dict(kind='callback', dom=dom, steps=[s1, s2], iters=int(rng.choice([2, 6])), zeros=[], truth='dirichlet', seed=nxt())
         # histories
-        reps = 60 if tier == 'quick' else 500
+        reps = 45 if tier == 'quick' else 400
         for rep in range(reps):
             for k in (2, 3, 4):
                 for z in (False, True):
@@ -138,7 +138,7 @@ class C13(Prop):
                             if (~MC.zero_mask(dom, zs)).sum() >= 2:
                                 break
                             zs = []
-                    yield dict(kind='history', dom=dom, steps=steps, iters=int(rng.choice([1, 4, 25])), zeros=zs,
+                    yield dict(kind='history', warm=bool(rng.rand() < 0.25), dom=dom, steps=steps, iters=int(rng.choice([1, 4, 25])), zeros=zs,
                                truth=str(rng.choice(['dirichlet', 'skewed'])), seed=nxt())
 
     def nontrivial(self, case):
@@ -207,7 +207,8 @@ class C13(Prop):
 
         zeros = MC.zeros_dict(case['zeros'])
         zeros_before = copy.deepcopy(zeros)
-        est = FactoredInference(domain, iters=case['iters'], structural_zeros=zeros, warm_start=False)
+        warm = bool(case.get('warm', False))
+        est = FactoredInference(domain, iters=case['iters'], structural_zeros=zeros, warm_start=warm)
         res = {}
 
         def note(clause, ok, detail):
@@ -231,10 +232,18 @@ class C13(Prop):
             if opts is not None:
                 rest = {k2: v for k2, v in opts.items() if k2 != 'callback'}
                 note('options-dict-unchanged-apart-from-callback-key', rest == step['options'], dict(call=k, now=str(opts), before=step['options']))
+            got = self._answers(model, queries)
+            if warm and k > 0:
+                # warm-started calls legitimately depend on the history: only immutability / input clauses apply
+                for m, snap, j in earlier:
+                    bad = self._compare(snap, self._answers(m, queries), True, float(m.total))
+                    note('earlier-model-answers-unchanged', bad is None, dict(bad or {}, model_of_call=j, after_call=k, engine_of_later_call=step['engine'], warm_start=True))
+                earlier.append((model, got, k))
+                continue
             # history-free: fresh estimator, deep copies of the same arguments
             fresh = FactoredInference(domain, iters=case['iters'], structural_zeros=copy.deepcopy(zeros_before), warm_start=False)
             fmodel, _ = self._call(fresh, copy.deepcopy(before), step, (lambda mu: None) if step['callback'] else None)
-            got, want = self._answers(model, queries), self._answers(fmodel, queries)
+            want = self._answers(fmodel, queries)
             bad = None
             if float(fmodel.total) != total and not (step['engine'] != 'MD' and abs(float(fmodel.total) - total) <= 1e-9 * total):
                 bad = dict(model_total=total, fresh_total=float(fmodel.total))
